@@ -118,6 +118,8 @@ var Zones = []string{
 	"UTC", "America/New_York", "Europe/London", "Asia/Kolkata", "Australia/Lord_Howe",
 	"Mars/Olympus_Mons", "America/Sao_Paulo", "America/Havana", "Asia/Beirut",
 	"America/Santiago", "Africa/Cairo", "Pacific/Kiritimati", "America/St_Johns", "Asia/Kathmandu",
+	// valid names with a hyphen, a plus sign, digits, three parts
+	"America/Port-au-Prince", "Etc/GMT+5", "EST5EDT", "America/Argentina/Buenos_Aires",
 }
 
 var nastyTexts = []string{
@@ -125,10 +127,13 @@ var nastyTexts = []string{
 	"a;b|c", "'single'", `""`, ",", "tab\there", "http://example.com/?a=1&b=2", "FFFFFF", "N", "é",
 	// a bare carriage return inside a (necessarily quoted) cell is kept verbatim by a CSV reader; it is not a line ending
 	"old\rmac",
+	// text that Unicode normalisation or case folding would rewrite: a decomposed accent, the Angstrom and Kelvin signs,
+	// a ligature, full-width digits, sharp s, dotted capital I
+	"cafe\u0301", "\u212b\u212a", "\ufb01n", "\uff11\uff12", "Stra\u00dfe", "\u0130stanbul",
 }
 
 // The lone space makes ids that differ only by leading or trailing whitespace ("a" / "a " / " a"): distinct ids.
-var idAtoms = []string{"a", "b", "A", "1", "10", "2", "01", "s", "st", "stop", "R", "M", "x y", "a,b", `q"`, "é", "ü", "-", "_", "#", "9", " "}
+var idAtoms = []string{"a", "b", "A", "1", "10", "2", "01", "s", "st", "stop", "R", "M", "x y", "a,b", `q"`, "é", "ü", "-", "_", "#", "9", " ", "e\u0301", "\u212a", "K"}
 
 func text(r *core.Rand) string {
 	if r.Chance(1, 3) {
